@@ -56,5 +56,6 @@ mpn_sizeinbase (mp_srcptr xp, mp_size_t xsize, int base)
       return (totbits + lb_base - 1) / lb_base;
     }
   else
-    return (size_t) (totbits * __mp_bases[base].chars_per_bit_exactly) + 1;
+    return (size_t) (totbits * __mp_bases[base].chars_per_bit_exactly
+		     * MP_BASES_CHARS_PER_BIT_ROUNDUP) + 1;
 }
